@@ -65,3 +65,57 @@ func VH_C03_time() {
 	}
 	vAssert("C03.time.count", n == want)
 }
+
+// ---- uniqueness declared through a custom schema, without the index flag ----
+
+type vCustomU struct {
+	Item
+	K int64
+	Q string
+}
+
+// VH_C03_custom: FieldDescriptors(...).Constraint(path, Constraints{Unique:
+// true}) — the index flag left false, as callers of the custom-schema API
+// write it — still means unique: a second object is refused iff it holds the
+// same K or the same (lower-cased) Q, on a single insert, inside one batch,
+// and after a restart.
+func VH_C03_custom() {
+	root := vTempDir()
+	db := Open(root)
+	LowercaseNames = false
+	fds := FieldDescriptors(&vCustomU{})
+	vAssert("C03.custom.setup", fds.Constraint("K", Constraints{Unique: true}) == nil && fds.Constraint("Q", Constraints{Unique: true, Lower: true}) == nil)
+	vAssert("C03.custom.create", db.Create(&vCustomU{}, NewCustomSchema(fds, DefaultExtension)) == nil)
+	a := &vCustomU{K: vInt64("Ka"), Q: vString("Qa", vBound("LQ", 1))}
+	b := &vCustomU{K: vInt64("Kb"), Q: vString("Qb", vBound("LQ", 1))}
+	conflict := vOr(a.K == b.K, vhLowerASCII(a.Q) == vhLowerASCII(b.Q))
+	switch vChoice("how", 3) {
+	case 0: // two single inserts
+		vAssert("C03.custom.first", db.InsertOrUpdate(a) == nil)
+		err := db.InsertOrUpdate(b)
+		vAssert("C03.custom.refused_iff_conflict", vIff(err != nil, conflict))
+		if err != nil {
+			vAssert("C03.custom.class", IsUnique(err))
+		}
+	case 1: // with a restart in between
+		vAssert("C03.custom.first", db.InsertOrUpdate(a) == nil)
+		vAssert("C03.custom.close", db.Close() == nil)
+		db = Open(root)
+		err := db.InsertOrUpdate(b)
+		vAssert("C03.custom.reopen.refused_iff_conflict", vIff(err != nil, conflict))
+	case 2: // one batch
+		n, err := db.InsertOrUpdateMany(a, b)
+		vAssert("C03.custom.batch.refused_iff_conflict", vIff(err != nil, conflict))
+		vAssert("C03.custom.batch.count", (err != nil && n == 0) || (err == nil && n == 2))
+	}
+	cnt, cerr := db.Count(&vCustomU{})
+	vAssert("C03.custom.count", cerr == nil)
+	objs, aerr := db.All(&vCustomU{})
+	vAssert("C03.custom.all", aerr == nil && len(objs) == cnt)
+	for i := range objs {
+		for j := i + 1; j < len(objs); j++ {
+			x, y := objs[i].(*vCustomU), objs[j].(*vCustomU)
+			vAssert("C03.custom.pairwise_distinct", vAnd(x.K != y.K, x.Q != y.Q))
+		}
+	}
+}
